@@ -472,10 +472,49 @@ def _files_install(lib):
     def effect(I, kind, detail=None):
         I.c.__dict__.setdefault("fs_effects", []).append((kind, detail, I.c.heap.snapshot()))
 
+    def is_main(I, path):
+        """The persistence path itself (a plain attribute value) as opposed to a path derived from it (f"{path}.tmp")."""
+        t = I.to_term(path, TStr)
+        return not (z3.is_app(t) and t.decl().kind() == z3.Z3_OP_SEQ_CONCAT)
+
+    def fs_move(label, kind):
+        def op(I, a, k, fr, n):
+            def run(I3):
+                c = I3.c
+                if kind == "remove":
+                    src_main, dst_main = is_main(I3, a[0]), False
+                else:
+                    src_main, dst_main = is_main(I3, a[0]), is_main(I3, a[1])
+                if src_main:
+                    if not c.branch(g(I3, "ghost.file_exists"), "file-exists"):
+                        raise RaiseSig(_exc(I3, "FileNotFoundError", n))
+                if c.branch(c.fresh("fsop_fails", BoolS), label + "-oserror"):
+                    raise RaiseSig(_exc(I3, "OSError", n))
+                if src_main:
+                    c.heap.set("ghost.other_disk", g(I3, "ghost.disk"))
+                    c.heap.set("ghost.file_exists", z3.BoolVal(False))
+                    effect(I3, "rename-away" if kind != "remove" else "remove")
+                elif dst_main:
+                    c.heap.set("ghost.disk", g(I3, "ghost.other_disk"))
+                    c.heap.set("ghost.file_exists", z3.BoolVal(True))
+                    effect(I3, "rename-into")
+                return None
+            if label.startswith("aiofiles."):
+                return coro(run)
+            return run(I)
+        return op
+    for mod in ("aiofiles.os", "os"):
+        lib.ext_calls[f"{mod}.replace"] = fs_move(f"{mod}.replace", "move")
+        lib.ext_calls[f"{mod}.rename"] = fs_move(f"{mod}.rename", "move")
+        lib.ext_calls[f"{mod}.remove"] = fs_move(f"{mod}.remove", "remove")
+        lib.ext_calls[f"{mod}.unlink"] = fs_move(f"{mod}.unlink", "remove")
+
     def aio_open(I, a, k, fr, n):
         path = a[0]
         mode = k.get("mode", a[1] if len(a) > 1 else "r")
         cm = LibObj("aiofile", path=path, mode=mode)
+        main = is_main(I, path)
+        disk_name = "ghost.disk" if main else "ghost.other_disk"
 
         def enter(I2, fr2, n2):
             c = I2.c
@@ -488,9 +527,10 @@ def _files_install(lib):
                 if c.branch(c.fresh("open_fails", BoolS), "open-oserror"):
                     raise RaiseSig(_exc(I2, "OSError", n2))
                 # A-FS: open(path, "w") truncates the file at open
-                c.heap.set("ghost.disk", z3.StringVal(""))
-                c.heap.set("ghost.file_exists", z3.BoolVal(True))
-                effect(I2, "open-truncate")
+                c.heap.set(disk_name, z3.StringVal(""))
+                if main:
+                    c.heap.set("ghost.file_exists", z3.BoolVal(True))
+                effect(I2, "open-truncate" if main else "open-other-file")
             fh = LibObj("aiofile_handle")
 
             def hattr(I3, name, fr3, n3):
@@ -502,7 +542,7 @@ def _files_install(lib):
                                 raise RaiseSig(_exc(I5, "OSError", n3))
                             if o_ == 1:
                                 raise RaiseSig(_exc(I5, "UnicodeDecodeError", n3))
-                            return I5.mk(g(I5, "ghost.disk"), "str")
+                            return I5.mk(g(I5, disk_name), "str")
                         return coro(run)
                     return Builtin("file.read", read)
                 if name == "write":
@@ -511,12 +551,13 @@ def _files_install(lib):
                             c5 = I5.c
                             s = I5.to_term(a4[0], TStr)
                             if c5.branch(c5.fresh("write_fails", BoolS), "file-write-oserror"):
-                                c5.heap.set("ghost.disk", c5.fresh("partial_content", StrS))  # any prefix may be on disk
-                                effect(I5, "partial-write", s)
+                                c5.heap.set(disk_name, c5.fresh("partial_content", StrS))  # any prefix may be on disk
+                                effect(I5, "partial-write" if main else "partial-write-other", s)
                                 raise RaiseSig(_exc(I5, "OSError", n3))
-                            effect(I5, "write-in-progress", s)  # a crash during the write leaves a proper prefix
-                            c5.heap.set("ghost.disk", z3.Concat(g(I5, "ghost.disk"), s) if not z3.is_string_value(g(I5, "ghost.disk")) or g(I5, "ghost.disk").as_string() else s)
-                            effect(I5, "write-complete", s)
+                            effect(I5, "write-in-progress" if main else "write-other-in-progress", s)  # a crash during the write leaves a proper prefix
+                            cur = g(I5, disk_name)
+                            c5.heap.set(disk_name, z3.Concat(cur, s) if not z3.is_string_value(cur) or cur.as_string() else s)
+                            effect(I5, "write-complete" if main else "write-other-complete", s)
                             c5.heap.set("ghost.saves", g(I5, "ghost.saves") + 1)  # one completed write of the persistence file
                             return None
                         return coro(run)
@@ -563,6 +604,14 @@ def _files_install(lib):
             return Sym(json_dump_of(d.ref), "str")
         raise Unsupported("json.dumps of this value")
     lib.ext_calls["json.dumps"] = json_dumps
+
+    def aio_shield(I, a, k, fr, n):
+        # A-AIO: shield(aw) runs aw as its own task; cancelling the awaiter of the shield does not cancel aw, which keeps running detached
+        inner = a[0]
+        sh = LibObj("shielded", inner=inner)
+        sh.awaited = lambda I2, fr2, n2: I2.do_await(inner, fr2, n2)
+        return sh
+    lib.ext_calls["asyncio.shield"] = aio_shield
 
     def aio_sleep(I, a, k, fr, n):
         def run(I3):
